@@ -23,7 +23,8 @@ mod c10;
 mod c11;
 mod c12;
 pub mod units;
-mod c13;
+pub mod c13;
+mod c14;
 mod c15;
 pub mod c17;
 mod c20;
@@ -78,6 +79,7 @@ fn main() {
         "c11" => (c11::gen, c11::exec),
         "c12" => (c12::gen, c12::exec),
         "c13" => (c13::gen, c13::exec),
+        "c14" => (c14::gen, c14::exec),
         "c15" => (c15::gen, c15::exec),
         "c17" => (c17::gen, c17::exec),
         "c20" => (c20::gen, c20::exec),
